@@ -58,6 +58,8 @@ def polars_horizontal_bug_applies(prog, where):
                 has_h = True
         if st["verb"] == "mutate" and any(not kf.has_col(e) for _n, e in st["kw"]):
             trigger = True
+        if st["verb"] == "mutate" and any(n.get("k") == "fn" and n["op"] in kf.AGG and not n.get("pb") for n in kf.walk(st["kw"])):
+            trigger = True  # an unpartitioned aggregate in mutate is a scalar column for Polars, like a literal
         if st["verb"] == "summarize" and any(not kf.has_col(e) for _n, e in st["kw"]):
             trigger = True
         if st["verb"] == "join" and st.get("how") in ("left", "full"):
